@@ -76,7 +76,20 @@ package collection
 //@ func Collection.Bounds
 //@   requires c != nil
 //@   modifies nothing
-//@   uses rt.stored, rt.mono, rt.search.content
+//@   uses rt.stored, rt.round, rt.search.content, geo.box.ordered
+//@   entry-assume idxSp(c, c.objs)
+//@   loop 1 invariant [cover] allint(o, inSp(c, o) && gMinX(objGeo(o)) < gMinX(objGeo(left)) ==> memberOf(seq1, o))
+//@   loop 1 invariant [seen] forall(i, 0, idx1, minX <= gMinX(objGeo(seq1[i]))) && minX <= gMinX(objGeo(left))
+//@   loop 1 invariant [attained] exint(o, inSp(c, o) && gMinX(objGeo(o)) == minX)
+//@   loop 2 invariant [cover] allint(o, inSp(c, o) && gMinY(objGeo(o)) < gMinY(objGeo(bottom)) ==> memberOf(seq2, o))
+//@   loop 2 invariant [seen] forall(i, 0, idx2, minY <= gMinY(objGeo(seq2[i]))) && minY <= gMinY(objGeo(bottom))
+//@   loop 2 invariant [attained] exint(o, inSp(c, o) && gMinY(objGeo(o)) == minY)
+//@   loop 3 invariant [cover] allint(o, inSp(c, o) && gMaxX(objGeo(right)) < gMaxX(objGeo(o)) ==> memberOf(seq3, o))
+//@   loop 3 invariant [seen] forall(i, 0, idx3, gMaxX(objGeo(seq3[i])) <= maxX) && gMaxX(objGeo(right)) <= maxX
+//@   loop 3 invariant [attained] exint(o, inSp(c, o) && gMaxX(objGeo(o)) == maxX)
+//@   loop 4 invariant [cover] allint(o, inSp(c, o) && gMaxY(objGeo(top)) < gMaxY(objGeo(o)) ==> memberOf(seq4, o))
+//@   loop 4 invariant [seen] forall(i, 0, idx4, gMaxY(objGeo(seq4[i])) <= maxY) && gMaxY(objGeo(top)) <= maxY
+//@   loop 4 invariant [attained] exint(o, inSp(c, o) && gMaxY(objGeo(o)) == maxY)
 //@   ensures [bounds.contain] allint(o, inSp(c, o) ==> minX <= gMinX(objGeo(o)) && minY <= gMinY(objGeo(o)) && gMaxX(objGeo(o)) <= maxX && gMaxY(objGeo(o)) <= maxY)
 //@   ensures [bounds.attained] !allint(o, c.spatial[o] == 0) ==> exint(o, inSp(c, o) && gMinX(objGeo(o)) == minX) && exint(o, inSp(c, o) && gMinY(objGeo(o)) == minY) && exint(o, inSp(c, o) && gMaxX(objGeo(o)) == maxX) && exint(o, inSp(c, o) && gMaxY(objGeo(o)) == maxY)
 //@   ensures [bounds.empty] allint(o, c.spatial[o] == 0) ==> minX == 0 && minY == 0 && maxX == 0 && maxY == 0
@@ -297,8 +310,6 @@ package collection
 // rt.round restates, for the real-number model used outside `ieee` functions, what the three IEEE obligations above
 // give: Down(a) <= float32(a) <= float32(b) <= Up(b) whenever a <= b.
 //@ axiom rt.round: allof("float64", a, allof("float64", b, a <= b ==> vdown(a) <= vup(b)))
-// rounding to the float32 grid is monotone in both directions (trusted restatement, like rt.round)
-//@ axiom rt.mono: allof("float64", a, allof("float64", b, a <= b ==> vdown(a) <= vdown(b) && vup(a) <= vup(b)))
 // the box an object is stored with (rtreeItem / rtreeRect, proved): rounded outwards from its rectangle
 //@ axiom rt.stored: allint(o, stMinX(o) == vdown(gMinX(objGeo(o))) && stMinY(o) == vdown(gMinY(objGeo(o))) && stMaxX(o) == vup(gMaxX(objGeo(o))) && stMaxY(o) == vup(gMaxY(objGeo(o))))
 // (rt.stored is what Insert/Delete are called with: their assumed contracts require exactly this box, see rtreeItem)
